@@ -1,20 +1,53 @@
 ---------------------------- MODULE TraceProperty ----------------------------
 (* C14 (c): linearizability of recorded concurrent histories against the
-   sequential register Property.tla, decided by TLC.
+   sequential register Property.tla, and per-subscriber event accounting while
+   the set of subscribers changes, decided by TLC.
 
    Trace (ndjson, one line per event, in the order of one process-wide counter):
      {"k":"inv",  "c":<client>, "op":{"k","n","kind","s"}}   call made
      {"k":"res",  "c":<client>, "r":{"e","sig","bytes"}}      call returned
      {"k":"ev",   "s":<subscriber>, "bytes":[...]}            change event received
+     {"k":"close","s":<subscriber>}   the subscriber is about to close its connection
+     {"k":"gone", "s":<subscriber>}   the server has forgotten that registration
+                                      (hook event `remove`, emitted under signalsMutex)
      {"k":"end"}      every call has returned and every subscriber has been given
                       T_BOUND to receive its events
      {"k":"reset"}    a new history (fresh object) follows
-   Lin(c) - the linearization point of c's pending call - is an internal step
-   placed by TLC anywhere between inv and res; Ev(s) consumes one not yet
-   consumed event of the subscriber's log; End demands that nothing is pending
-   and that every event of every accepted write has been received.  The history
-   is accepted iff TLC can consume the whole trace (high-water mark = length). *)
+   op.k = sub / unsub (op.s = the subscriber) are the registerEvent /
+   unregisterEvent calls of a subscriber: inv = the request is made, res = its
+   acknowledgement.
+
+   Lin(c) - the linearization point of c's pending call (for a write: the moment
+   it is accepted) - is an internal step placed by TLC anywhere between inv and
+   res.  The accounting, as C14 states it, on what a history shows:
+     * a subscriber whose subscription is acknowledged (res of sub seen) before the
+       write is even requested (inv) - hence before it is accepted - is OWED the
+       event (`must`), until it asks to leave (inv of unsub, close): from then on
+       it may or may not receive it (`may`);
+     * a subscriber whose (un)subscription overlaps the write's call - joining or
+       leaving when the write is requested, or asking to join before the write's
+       call has returned (the emission takes its snapshot somewhere before the
+       return) - MAY receive it: no verdict;
+     * nobody else may, and nobody receives the event of one write twice: an `ev`
+       consumes a must / may entry of a write carrying these bytes, and an `ev`
+       that finds none is not a behaviour of the specification (trace rejected:
+       duplicated, foreign, rejected-write or never-subscribed event);
+     * End demands that nothing is pending and that nothing is owed any more.
+   (Entitlement is fixed at inv, not at the linearization point: it then does not
+   depend on where TLC places Lin, and the search stays as small as without
+   subscriber churn.  The window "acknowledged after the request but before the
+   write was accepted" is decided exactly by the forced schedules, c14-churn.)
+   The history is accepted iff TLC can consume the whole trace (high-water mark =
+   length).
+
+   Deviation known to the trace specification (TRUE = the pinned code, see
+   PropertySteps.Dev_SendErrorFailsWrite): an accepted write whose call overlaps
+   the disconnection of a subscriber (close .. gone) may return an error.  The
+   check reports every such response as a failure of the real code (class
+   history/accepted-write-reports-delivery-error).                            *)
 EXTENDS Property, Json, IOUtils, TLCExt
+
+CONSTANT Dev_SendErrorFailsWrite
 
 (* The trace and everything derived from it is computed once, while TLC
    evaluates the ASSUME below, and kept in TLC registers (a definition over
@@ -39,20 +72,78 @@ Clients == TLCGet(8)
 ValidRange   == 0..100000
 InvalidRange == -100000..-1
 
-VARIABLES l, pend, used
-tvars == <<vars, l, pend, used>>
+VARIABLES
+  l,        \* next line of the trace
+  pend,     \* [Clients -> call in flight]: st, op, res (expected result, fixed by Lin),
+            \*   acc (an accepted write), vb (its bytes), must / may / got (subscribers
+            \*   owed / allowed / served the event of this write), cd (a subscriber
+            \*   was disconnecting while the call was in flight)
+  sst,      \* [Subs -> {"out","joining","in","leaving","closing"}]
+  owe,      \* [Subs -> bag of bytes]: events of returned writes still owed
+  mayb      \* [Subs -> bag of bytes]: events of returned writes that may still arrive
+tvars == <<vars, l, pend, sst, owe, mayb>>
 
 NoOp  == [k |-> "", n |-> 0, kind |-> "", s |-> ""]
-Idle  == [st |-> "idle", op |-> NoOp, res |-> OK]
+Idle  == [st |-> "idle", op |-> NoOp, res |-> OK, acc |-> FALSE, vb |-> <<>>,
+          must |-> {}, may |-> {}, got |-> {}, cd |-> FALSE]
+EmptyBag == <<>>
+BagAdd(B, b) == IF b \in DOMAIN B THEN [B EXCEPT ![b] = @ + 1] ELSE B @@ (b :> 1)
+BagDel(B, b) == IF B[b] > 1 THEN [B EXCEPT ![b] = @ - 1]
+                ELSE IF DOMAIN B = {b} THEN EmptyBag ELSE [x \in DOMAIN B \ {b} |-> B[x]]
+BagSum(A, B) == [x \in DOMAIN A \cup DOMAIN B |->
+                   (IF x \in DOMAIN A THEN A[x] ELSE 0) + (IF x \in DOMAIN B THEN B[x] ELSE 0)]
 
-TInit == Init /\ l = 1 /\ pend = [c \in Clients |-> Idle] /\ used = [s \in Subs |-> {}]
+TInit == /\ Init /\ l = 1 /\ pend = [c \in Clients |-> Idle]
+         /\ sst = [s \in Subs |-> "out"]
+         /\ owe = [s \in Subs |-> EmptyBag] /\ mayb = [s \in Subs |-> EmptyBag]
 
 Ev == TraceLog[l]
+IsSubOp(op) == op.k \in {"sub", "unsub"}
+Closing == \E s \in Subs : sst[s] = "closing"
+
+\* s asks to leave: whatever it is still owed becomes optional
+Downgrade(p, s) == [c \in Clients |-> IF s \in p[c].must
+                                      THEN [p[c] EXCEPT !.must = @ \ {s}, !.may = @ \cup {s}] ELSE p[c]]
+LeaveBags(s) == /\ owe' = [owe EXCEPT ![s] = EmptyBag]
+                /\ mayb' = [mayb EXCEPT ![s] = BagSum(@, owe[s])]
+
+\* the bytes of the event op emits if it is accepted (<<>>: it cannot be accepted)
+CandBytes(op) ==
+  CASE op.k \in {"set", "update"} -> IF op.n >= 0 THEN LE32(op.n) ELSE <<>>
+    [] op.k = "setwrong" -> IF WrongTab[op.kind].conv # NoConv \/ Dev_ValidateByBytesOnly
+                            THEN (IF WrongTab[op.kind].conv # NoConv THEN LE32(WrongTab[op.kind].conv)
+                                  ELSE WrongTab[op.kind].bytes)
+                            ELSE <<>>
+    [] OTHER -> <<>>
+IsWrite(op) == CandBytes(op) # <<>>
 
 Inv == /\ l <= N /\ Ev.k = "inv"
        /\ pend[Ev.c].st = "idle"
-       /\ pend' = [pend EXCEPT ![Ev.c] = [st |-> "pending", op |-> Ev.op, res |-> OK]]
-       /\ l' = l + 1 /\ UNCHANGED <<vars, used>>
+       /\ LET new == [Idle EXCEPT !.st = "pending", !.op = Ev.op, !.cd = Closing] IN
+          CASE Ev.op.k = "sub" ->
+                 /\ sst[Ev.op.s] = "out"
+                 /\ sst' = [sst EXCEPT ![Ev.op.s] = "joining"]
+                 \* the writes in flight may still take their snapshot
+                 /\ pend' = [c \in Clients |->
+                               IF c = Ev.c THEN new
+                               ELSE IF pend[c].st # "idle" /\ IsWrite(pend[c].op)
+                                       /\ (pend[c].st = "pending" \/ pend[c].acc)
+                                       /\ Ev.op.s \notin pend[c].got \cup pend[c].must
+                                    THEN [pend[c] EXCEPT !.may = @ \cup {Ev.op.s}] ELSE pend[c]]
+                 /\ UNCHANGED <<owe, mayb>>
+            [] Ev.op.k = "unsub" ->
+                 /\ sst[Ev.op.s] = "in"
+                 /\ sst' = [sst EXCEPT ![Ev.op.s] = "leaving"]
+                 /\ pend' = [Downgrade(pend, Ev.op.s) EXCEPT ![Ev.c] = new]
+                 /\ LeaveBags(Ev.op.s)
+            [] OTHER ->
+                 /\ pend' = [pend EXCEPT ![Ev.c] =
+                               IF IsWrite(Ev.op)
+                               THEN [new EXCEPT !.must = {s \in Subs : sst[s] = "in"},
+                                                !.may = {s \in Subs : sst[s] \in {"joining", "leaving"}}]
+                               ELSE new]
+                 /\ UNCHANGED <<sst, owe, mayb>>
+       /\ l' = l + 1 /\ UNCHANGED vars
 
 Apply(op) ==
   CASE op.k = "get"      -> Get
@@ -60,55 +151,90 @@ Apply(op) ==
     [] op.k = "update"   -> IF op.n >= 0 THEN Update(op.n) ELSE UpdateInvalid(op.n)
     [] op.k = "setwrong" -> SetWrong(op.kind)
     [] op.k = "setunknown" -> SetUnknown
-    [] op.k = "sub"      -> Subscribe(op.s)
-    [] op.k = "unsub"    -> Unsubscribe(op.s)
 
 \* A linearization point commutes with the invocations of other clients, so it
-\* is only tried where it can matter: right before a response or an event.
+\* is only tried where it can matter: right before a response or an event (an
+\* event pins the linearization point of its write, and the other calls must be
+\* placeable on either side of it).
 Lin(c) == /\ l <= N /\ Ev.k \in {"res", "ev"}
-          /\ pend[c].st = "pending"
+          /\ pend[c].st = "pending" /\ ~IsSubOp(pend[c].op)
           /\ Apply(pend[c].op)
-          /\ pend' = [pend EXCEPT ![c].st = "done", ![c].res = ret']
-          /\ used' = IF pend[c].op.k = "sub" THEN [used EXCEPT ![pend[c].op.s] = {}] ELSE used
-          /\ UNCHANGED l
+          /\ LET acc == last'.w /\ ret'.e = "" IN
+             pend' = [pend EXCEPT ![c].st = "done", ![c].res = ret', ![c].acc = acc,
+                                  ![c].vb = IF acc THEN val'.bytes ELSE <<>>,
+                                  ![c].must = IF acc THEN @ ELSE {},
+                                  ![c].may = IF acc THEN @ ELSE {}]
+          /\ UNCHANGED <<l, sst, owe, mayb>>
 
 Res == /\ l <= N /\ Ev.k = "res"
-       /\ pend[Ev.c].st = "done"
-       /\ pend[Ev.c].res = Ev.r
+       /\ LET p == pend[Ev.c] IN
+          IF IsSubOp(p.op)
+          THEN /\ p.st = "pending" /\ Ev.r.e = ""
+               /\ sst' = [sst EXCEPT ![p.op.s] = IF p.op.k = "sub" THEN "in" ELSE "out"]
+               /\ UNCHANGED <<owe, mayb>>
+          ELSE /\ p.st = "done"
+               /\ \/ p.res = Ev.r
+                  \/ /\ Dev_SendErrorFailsWrite /\ p.acc /\ p.cd /\ Ev.r = Err
+                     /\ p.op.k \in {"set", "update"}      \* (a wrongly-typed write that fails was rejected)
+               /\ owe' = [s \in Subs |-> IF s \in p.must THEN BagAdd(owe[s], p.vb) ELSE owe[s]]
+               /\ mayb' = [s \in Subs |-> IF s \in p.may THEN BagAdd(mayb[s], p.vb) ELSE mayb[s]]
+               /\ UNCHANGED sst
        /\ pend' = [pend EXCEPT ![Ev.c] = Idle]
-       /\ l' = l + 1 /\ UNCHANGED <<vars, used>>
+       /\ l' = l + 1 /\ UNCHANGED vars
 
-\* an event received by subscriber s: one not yet consumed entry of its log
-Unused(s, b) == {i \in 1..Len(events[s]) : i \notin used[s] /\ events[s][i].bytes = b}
+\* an event received by subscriber s: one entry of a write carrying these bytes
 Event == /\ l <= N /\ Ev.k = "ev"
-         /\ Unused(Ev.s, Ev.bytes) # {}
-         /\ used' = [used EXCEPT ![Ev.s] = @ \cup {CHOOSE i \in Unused(Ev.s, Ev.bytes) :
-                                                     \A j \in Unused(Ev.s, Ev.bytes) : i <= j}]
-         /\ l' = l + 1 /\ UNCHANGED <<vars, pend>>
+         /\ LET s == Ev.s
+                b == Ev.bytes
+            IN \/ \E c \in Clients :
+                    /\ pend[c].st = "done" /\ pend[c].acc /\ pend[c].vb = b
+                    /\ s \in pend[c].must \cup pend[c].may
+                    /\ pend' = [pend EXCEPT ![c].must = @ \ {s}, ![c].may = @ \ {s}, ![c].got = @ \cup {s}]
+                    /\ UNCHANGED <<owe, mayb>>
+               \/ /\ b \in DOMAIN owe[s]
+                  /\ owe' = [owe EXCEPT ![s] = BagDel(@, b)]
+                  /\ UNCHANGED <<pend, mayb>>
+               \/ /\ b \notin DOMAIN owe[s] /\ b \in DOMAIN mayb[s]
+                  /\ mayb' = [mayb EXCEPT ![s] = BagDel(@, b)]
+                  /\ UNCHANGED <<pend, owe>>
+         /\ l' = l + 1 /\ UNCHANGED <<vars, sst>>
+
+\* the subscriber closes its connection (logged before the close)
+Close == /\ l <= N /\ Ev.k = "close"
+         /\ sst[Ev.s] = "in"
+         /\ sst' = [sst EXCEPT ![Ev.s] = "closing"]
+         /\ pend' = [c \in Clients |-> IF pend[c].st = "idle" THEN pend[c]
+                                       ELSE [Downgrade(pend, Ev.s)[c] EXCEPT !.cd = TRUE]]
+         /\ LeaveBags(Ev.s)
+         /\ l' = l + 1 /\ UNCHANGED vars
+\* the server has removed the registration of the closed connection
+Gone == /\ l <= N /\ Ev.k = "gone"
+        /\ sst[Ev.s] = "closing"
+        /\ sst' = [sst EXCEPT ![Ev.s] = "out"]
+        /\ l' = l + 1 /\ UNCHANGED <<vars, pend, owe, mayb>>
 
 End == /\ l <= N /\ Ev.k = "end"
        /\ \A c \in Clients : pend[c].st = "idle"
-       /\ \A s \in Subs : used[s] = 1..Len(events[s])
-       /\ l' = l + 1 /\ UNCHANGED <<vars, pend, used>>
+       /\ \A s \in Subs : owe[s] = EmptyBag
+       /\ l' = l + 1 /\ UNCHANGED <<vars, pend, sst, owe, mayb>>
 
 Reset == /\ l <= N /\ Ev.k = "reset"
          /\ val' = [set |-> FALSE, sig |-> "", bytes |-> NoBytes]
          /\ writes' = <<>> /\ subscribed' = [s \in Subs |-> FALSE]
          /\ since' = [s \in Subs |-> 0] /\ events' = [s \in Subs |-> <<>>]
          /\ ret' = OK /\ last' = [k |-> "init", w |-> FALSE]
-         /\ pend' = [c \in Clients |-> Idle] /\ used' = [s \in Subs |-> {}]
+         /\ pend' = [c \in Clients |-> Idle] /\ sst' = [s \in Subs |-> "out"]
+         /\ owe' = [s \in Subs |-> EmptyBag] /\ mayb' = [s \in Subs |-> EmptyBag]
          /\ l' = l + 1
 
-TNext == Inv \/ Res \/ Event \/ End \/ Reset \/ \E c \in Clients : Lin(c)
+TNext == Inv \/ Res \/ Event \/ Close \/ Gone \/ End \/ Reset \/ \E c \in Clients : Lin(c)
 TSpec == TInit /\ [][TNext]_tvars
 
 \* What the rest of a history can depend on: the register, who listens, which
-\* events are still owed to each subscriber (a bag), the position and the pending
-\* calls.  The order of the past writes is history; hiding it lets TLC merge the
+\* events are still owed / allowed, the position and the calls in flight.  The
+\* order of the past writes is history; hiding it lets TLC merge the
 \* linearizations that differ only there.
-Owed(s) == LET U == {i \in 1..Len(events[s]) : i \notin used[s]}
-           IN  [b \in {events[s][i].bytes : i \in U} |-> Cardinality({i \in U : events[s][i].bytes = b})]
-TView == <<val, subscribed, [s \in Subs |-> Owed(s)], l, pend>>
+TView == <<val, sst, owe, mayb, l, pend>>
 
 \* high-water mark of consumed events (cfg: CONSTRAINT Track, POSTCONDITION Accepted)
 Track    == TLCSet(1, IF TLCGet(1) < l THEN l ELSE TLCGet(1))
